@@ -9,6 +9,7 @@ import (
 	"fmt"
 	"os"
 	"sort"
+	"time"
 
 	cmtabci "github.com/cometbft/cometbft/abci/types"
 
@@ -336,4 +337,114 @@ func (d *cnDriver) genProofs(h int64, nonceBump map[string]uint64) []cnTxMeta {
 		add(u.name, n.vals[0].name, "notanode", d.vrf.epoch)
 	}
 	return metas
+}
+
+// ---- state sync: a new replica joins from a snapshot served by another replica, then catches up ----
+
+type cnLogged struct {
+	b      cnBlock
+	valset map[int]int64
+	app    string
+}
+
+// stateSync restores a fresh replica from the newest snapshot a source replica offers (chunks in the order of `order`,
+// optionally with a corrupted copy of a chunk first and a duplicate), replays the blocks since then and compares application
+// hashes with the observer's.  Returns the event to record (nil if the source offers no usable snapshot yet).
+func (d *cnDriver) stateSync(h int64, src *cnReplica, backend, order string) map[string]any {
+	n := d.net
+	var snap *cmtabci.Snapshot
+	for try := 0; try < 40 && snap == nil; try++ {
+		for _, s := range src.mux.ListSnapshots(cmtabci.RequestListSnapshots{}).Snapshots {
+			if lg, ok := d.blockLog[int64(s.Height)]; ok && lg.app != "" && (snap == nil || s.Height > snap.Height) {
+				snap = s
+			}
+		}
+		if snap == nil {
+			time.Sleep(10 * time.Millisecond)
+		}
+	}
+	if snap == nil {
+		return nil
+	}
+	ev := map[string]any{"ev": "statesync", "h": h, "snapshot": int64(snap.Height), "chunks": int64(snap.Chunks), "source": src.name,
+		"source_backend": src.cfg.Backend, "backend": backend, "order": order}
+	d.nSync++
+	tgt, err := n.newReplica(fmt.Sprintf("sync%d", d.nSync), cnReplicaCfg{Backend: backend, OnDisk: true, Identity: 0, NoInit: true})
+	if err != nil {
+		ev["problem"] = "target: " + err.Error()
+		return ev
+	}
+	defer func() {
+		tgt.stop()
+		os.RemoveAll(tgt.dir)
+	}()
+	var appHash hash.Hash
+	if err = appHash.UnmarshalHex(d.blockLog[int64(snap.Height)].app); err != nil {
+		ev["problem"] = "app hash: " + err.Error()
+		return ev
+	}
+	var results []string
+	perr := guard(func() {
+		off := tgt.mux.OfferSnapshot(cmtabci.RequestOfferSnapshot{Snapshot: snap, AppHash: appHash[:]})
+		ev["offer"] = off.Result.String()
+		if off.Result != cmtabci.ResponseOfferSnapshot_ACCEPT {
+			return
+		}
+		idx := make([]uint32, snap.Chunks)
+		for i := range idx {
+			idx[i] = uint32(i)
+		}
+		switch order {
+		case "reverse":
+			for i, j := 0, len(idx)-1; i < j; i, j = i+1, j-1 {
+				idx[i], idx[j] = idx[j], idx[i]
+			}
+		case "shuffle":
+			d.rng.Shuffle(len(idx), func(i, j int) { idx[i], idx[j] = idx[j], idx[i] })
+		}
+		for k, i := range idx {
+			chunk := src.mux.LoadSnapshotChunk(cmtabci.RequestLoadSnapshotChunk{Height: snap.Height, Format: snap.Format, Chunk: i}).Chunk
+			if order == "corrupt-first" && k == 0 && len(chunk) > 0 {
+				bad := append([]byte{}, chunk...)
+				bad[len(bad)/2] ^= 0x40
+				r := tgt.mux.ApplySnapshotChunk(cmtabci.RequestApplySnapshotChunk{Index: i, Chunk: bad, Sender: "corruptor"})
+				results = append(results, "corrupt:"+r.Result.String())
+			}
+			r := tgt.mux.ApplySnapshotChunk(cmtabci.RequestApplySnapshotChunk{Index: i, Chunk: chunk, Sender: src.name})
+			results = append(results, r.Result.String())
+			if order == "duplicates" && k+1 < len(idx) {
+				r2 := tgt.mux.ApplySnapshotChunk(cmtabci.RequestApplySnapshotChunk{Index: i, Chunk: chunk, Sender: src.name})
+				results = append(results, "dup:"+r2.Result.String())
+			}
+		}
+	})
+	ev["results"] = results
+	if perr != nil {
+		ev["panic"] = perr.Error()[:min(len(perr.Error()), 1500)]
+		return ev
+	}
+	info := tgt.mux.Info(cmtabci.RequestInfo{})
+	ev["restored_height"] = info.LastBlockHeight
+	ev["restored_app_ok"] = fmt.Sprintf("%x", info.LastBlockAppHash) == d.blockLog[int64(snap.Height)].app
+	// catch up: the blocks decided since the snapshot
+	agree, first := true, int64(0)
+	for hh := int64(snap.Height) + 1; hh <= h && agree; hh++ {
+		lg, ok := d.blockLog[hh]
+		if !ok {
+			break
+		}
+		res := tgt.finalize(&lg.b, lg.valset)
+		if res.Panic != "" {
+			ev["panic"] = res.Panic[:min(len(res.Panic), 1500)]
+			agree, first = false, hh
+		} else if lg.app != "" && res.AppHash != lg.app {
+			agree, first = false, hh
+		}
+		ev["caught_up_to"] = hh
+	}
+	ev["agree"] = agree
+	if !agree {
+		ev["first_difference"] = first
+	}
+	return ev
 }
